@@ -82,7 +82,29 @@ def targets(v, L):
     def msg():
         m, p = seg_in_msg()
         return m, m
-    return [("segment", seg_alone), ("segment_in_message", seg_in_msg), ("field_in_segment", field_in_seg), ("field", field_alone),
+
+    def seg_empty():
+        s = Segment("PID", version=v, validation_level=L)
+        return s, s
+
+    def group_empty_in_msg():
+        m, p = seg_in_msg()
+        g = m.add_group("ADT_A01_INSURANCE")
+        return m, g
+
+    def qpd():
+        s = Segment("QPD", version=v, validation_level=L)
+        s.qpd_1 = "Q22^Find"
+        s.qpd_4 = "x"
+        return s, s
+
+    def zseg_in_msg():
+        m, p = seg_in_msg()
+        z = m.add_segment("ZIN")
+        z.zin_1 = "a"
+        return m, z
+    return [("empty_segment", seg_empty), ("empty_group_in_message", group_empty_in_msg), ("open_ended_segment", qpd),
+            ("z_segment_in_message", zseg_in_msg), ("segment", seg_alone), ("segment_in_message", seg_in_msg), ("field_in_segment", field_in_seg), ("field", field_alone),
             ("component_in_field", comp_in_field), ("group", group), ("message", msg)]
 
 
@@ -114,6 +136,12 @@ def operations(v, L, other):
         ("children.insert foreign", lambda t: t.children.insert(0, Field("NK1_2", version=v, validation_level=L))),
         ("children[0]=foreign text", lambda t: t.children.__setitem__(0, "NK1|zzz" if t.classname in ("Group", "Message") else Field("NK1_2", version=v, validation_level=L))),
         ("pop out of range", lambda t: t.children.pop(50)),
+        ("value=text whose later part is refused", lambda t: setattr(t, "value", {
+            "Segment": t.name + "|1||||A^B|||M~F~G" if t.name == "PID" else t.name + "|a|b|" + "x" * 70000,
+            "Group": "IN1|1\rIN2|1\rIN2|2\rNK1|9", "Message": "MSH|^~\\&|A\rEVN|1\rEVN|2\rEVN|3",
+            "Field": "1^2^3^A&B&C&D&E&F&G^MR^^^^^^^^^^^^^^^x", "Component": "N&U&T&X&Y&Z"}.get(t.classname, "x"))),
+        ("add a far additional field of another version", lambda t: t.add(Field("%s_%d" % (t.name, 40), version=("2.4" if v != "2.4" else "2.5"), validation_level=L))),
+        ("add a far additional field of another level", lambda t: t.add(Field("%s_%d" % (t.name, 45), version=v, validation_level=other))),
     ]
 
     # an ATTACHED child of the target is handed to another parent that refuses it (other level / other version)
@@ -190,7 +218,7 @@ def events_for(v):
                     out.append({"harness_note": "target %s %s: %s" % (tname, ln, exc_name(ex))})
                     continue
                 e = {"target": tname, "op": oname, "lvl": ln, "v": v, "enc_before": cps(t.to_er7()), "tree_before": tree_of(t),
-                     "root_before": cps(root.to_er7())}
+                     "root_before": cps(root.to_er7()), "trail_before": cps(root.to_er7(trailing_children=True))}
                 del OTHERS[:]
                 try:
                     op(t)
@@ -205,10 +233,12 @@ def events_for(v):
                     e["enc_after"] = cps(t.to_er7())
                     e["tree_after"] = tree_of(t)
                     e["root_after"] = cps(root.to_er7())
+                    e["trail_after"] = cps(root.to_er7(trailing_children=True))
                 except Exception as ex:
                     e["enc_after"] = cps("<to_er7 raised %s>" % exc_name(ex))
                     e["tree_after"] = []
                     e["root_after"] = []
+                    e["trail_after"] = []
                 out.append(e)
     return out
 
